@@ -2,6 +2,7 @@ import Driver.Proto
 import PqModel.CopyPath
 import PqModel.Splice
 import PqModel.SpliceMeta
+import PqModel.CopyValues
 
 /-! Ops for C11: the decision cascade of `Writer.WriteRowGroup`.
 
@@ -249,8 +250,22 @@ def spliceAllV (start : Nat) (cs : List (PqModel.SpliceMeta.FullMeta × Nat)) : 
   let showB : Option (Nat × Nat) → String := fun b => match b with | none => "n" | some (o, l) => s!"{o}.{l}"
   some s!"{";".intercalate (r.map fun mb => showChunkMeta mb.1.layout ++ "~" ++ showValues mb.1)} {",".intercalate (r.map fun mb => showB mb.2)} rg={t.fileOffset},{t.totalByteSize},{t.totalCompressedSize},{t.numRows}"
 
+/-- `copy.batches <rep:0|1> <cap> <pages>` -> `ok <done|noprogress|fuel> <batch sizes>`
+    pages: `;`-joined, one string per source page, one char per value: `1` = repetition level 0
+    (`-` = no page); the mirror `copyLoop` of `copyColumnValues` with `len(buf) = cap` -/
+def copyBatches (rep : Bool) (cap : Nat) (pages : String) : String :=
+  let ps : List (List Bool) := (if pages == "-" then [] else pages.splitOn ";").map fun p => p.toList.map (· == '1')
+  let total := (ps.map List.length).sum
+  let r := PqModel.CopyValues.copyLoop rep id (total + 2) ps cap []
+  let st := match r.2 with | .done => "done" | .noProgress => "noprogress" | .fuel => "fuel"
+  s!"ok {st} {showList toString (r.1.map List.length)}"
+
 def handle (toks : List String) : Option String :=
   match toks with
+  | ["copy.batches", rep, cap, pages] => some <|
+    match parseBool? rep, parseNat? cap with
+    | some rep, some cap => copyBatches rep cap pages
+    | _, _ => "bad-op"
   | ["copy.splicev", start, chunks] => some <|
     match parseNat? start, (chunks.splitOn ";").mapM parseSrcChunkV? with
     | some st, some cs => match spliceAllV st cs with
